@@ -761,3 +761,71 @@ pub fn case_rt(id: &str, v: &serde_json::Value) -> Option<Out> {
     w.close();
     Some(done(w, id))
 }
+
+// ---------------------------------------------------------------------------------------------
+// prim: the crate's AsValue adapters for Rust's own types, at their boundary values (C11)
+// ---------------------------------------------------------------------------------------------
+
+fn show_value(v: &Value<'_>) -> String {
+    match v {
+        Value::Null => "null".to_owned(),
+        Value::Bool(b) => format!("bool:{}", b),
+        Value::Float(f) => format!("float:{}", f.to_bits()),
+        Value::Int(i) => format!("int:{}", i),
+        Value::UInt(u) => format!("uint:{}", u),
+        Value::String(s) => format!("str:{}", s.len()),
+        Value::Array(a) => {
+            let items: Vec<String> = a.iter().map(|x| show_value(&x)).collect();
+            format!("arr[{}]", items.join(","))
+        }
+        Value::Object(o) => format!("obj:{}", o.len()),
+    }
+}
+
+pub fn case_prim(id: &str, _v: &serde_json::Value) -> Option<Out> {
+    let mut rows: Vec<(String, String)> = Vec::new();
+    macro_rules! ints {
+        ($($ty:ident),+) => {$(
+            for x in [<$ty>::MIN, <$ty>::MIN / 2, 0 as $ty, 1 as $ty, <$ty>::MAX / 2 + 1, <$ty>::MAX] {
+                let label = format!("{}:{}", stringify!($ty), x);
+                let r = guarded(|| show_value(&x.as_value())).unwrap_or_else(|| "panic".to_owned());
+                rows.push((label, r));
+                // through the std adapters
+                let r = guarded(|| show_value(&Some(x).as_value())).unwrap_or_else(|| "panic".to_owned());
+                rows.push((format!("Option<{}>:{}", stringify!($ty), x), r));
+                let r = guarded(|| show_value(&vec![x, x].as_value())).unwrap_or_else(|| "panic".to_owned());
+                rows.push((format!("Vec<{}>:{}", stringify!($ty), x), r));
+                let mut m: HashMap<String, $ty> = HashMap::new();
+                m.insert("n".to_owned(), x);
+                let r = guarded(|| match Object::find(&m, "n") { Some(v) => show_value(&v), None => "none".to_owned() })
+                    .unwrap_or_else(|| "panic".to_owned());
+                rows.push((format!("HashMap<String,{}>:{}", stringify!($ty), x), r));
+            }
+        )+};
+    }
+    ints!(i8, i16, i32, i64, isize, u8, u16, u32, u64, usize);
+    for x in [0.0f32, -0.0, 1.5, f32::MAX, f32::MIN_POSITIVE, f32::INFINITY] {
+        rows.push((format!("f32:{}", x.to_bits()), guarded(|| show_value(&x.as_value())).unwrap_or_else(|| "panic".to_owned())));
+    }
+    for x in [0.0f64, -0.0, 1.5, f64::MAX, f64::MIN_POSITIVE, f64::NEG_INFINITY, 9007199254740993.0] {
+        rows.push((format!("f64:{}", x.to_bits()), guarded(|| show_value(&x.as_value())).unwrap_or_else(|| "panic".to_owned())));
+    }
+    for x in [true, false] {
+        rows.push((format!("bool:{}", x), guarded(|| show_value(&x.as_value())).unwrap_or_else(|| "panic".to_owned())));
+    }
+    rows.push(("unit".to_owned(), guarded(|| show_value(&().as_value())).unwrap_or_else(|| "panic".to_owned())));
+    rows.push(("None<i64>".to_owned(), guarded(|| show_value(&(None as Option<i64>).as_value())).unwrap_or_else(|| "panic".to_owned())));
+    rows.push(("String:abc".to_owned(), guarded(|| show_value(&"abc".to_owned().as_value())).unwrap_or_else(|| "panic".to_owned())));
+    rows.push(("str:abcd".to_owned(), guarded(|| show_value(&"abcd".as_value())).unwrap_or_else(|| "panic".to_owned())));
+    let hs: HashSet<u16> = [7u16].into_iter().collect();
+    rows.push(("HashSet<u16>:7".to_owned(), guarded(|| show_value(&hs.as_value())).unwrap_or_else(|| "panic".to_owned())));
+    let mut w = begin(id);
+    for (label, r) in rows {
+        w.open();
+        w.atom(&label.replace(' ', ""));
+        w.atom(&r.replace(' ', ""));
+        w.close();
+    }
+    w.close();
+    Some(done(w, id))
+}
